@@ -27,14 +27,10 @@ type DecisionMakingParams struct {
 
 func (p *DecisionMakingParams) AllAlternatives() []AlternativeWithCriteria {
 	notConsider := p.NotConsideredAlternatives
-	if notConsider == nil {
-		notConsider = make([]AlternativeWithCriteria, 0)
-	}
 	toConsider := p.ConsideredAlternatives
-	if toConsider == nil {
-		toConsider = make([]AlternativeWithCriteria, 0)
-	}
-	return append(toConsider, notConsider...)
+	all := make([]AlternativeWithCriteria, 0, len(toConsider)+len(notConsider))
+	all = append(all, toConsider...)
+	return append(all, notConsider...)
 }
 
 type RawMethodParameters = map[string]interface{}
